@@ -59,7 +59,10 @@ impl RecvRateSet {
             is_initial: false
         });
 
-        self.entries.retain(|e| now_ms - e.timestamp_ms < 2 * rtt_ms);
+        // The entry just added is always kept: with an RTT estimate of 0 ms (acknowledgement
+        // processed within the millisecond the frame was sent in) nothing would survive, and
+        // max() below expects at least one entry
+        self.entries.retain(|e| now_ms - e.timestamp_ms < (2 * rtt_ms).max(1));
 
         return self.max();
     }
